@@ -86,7 +86,7 @@ package distributed
 //@   ensures err == nil ==> (forall i int :: {sessions[i]} 0 <= i && i < len(sessions) ==> sessions[i].SessionID in s.sessions && smts(s.sessions[sessions[i].SessionID]) >= smts(*sessions[i]))
 //@   ensures forall k string :: {s.sessions[k]} {k in s.sessions} k in s.sessions ==> (old(k in s.sessions) && s.sessions[k] == old(s.sessions[k])) || (exists i int :: {sessions[i]} 0 <= i && i < len(sessions) && sessions[i].SessionID == k && s.sessions[k] == *sessions[i])
 //@   ensures err != nil ==> err == ErrInvalidPayload
-//@   modifies mapof(s.sessions), heap(K_sync_RWMutex)
+//@   modifies mapof(s.sessions)
 //@ loop (*sessionMetadatasState).mergeSessions#1
 //@   invariant sm_wf(s) && -1 <= rangeindex && rangeindex < len(sessions)
 //@   invariant mapsframe(s.sessions)
@@ -138,7 +138,7 @@ package distributed
 //@   ensures err == nil ==> #bcasts == old(#bcasts) + 1 && ev_nsess(#lastBcast) == 1 && sm_eq(ev_sess(#lastBcast, 0), s.sessions[id]) && ev_nsubs(#lastBcast) == 0 && ev_nret(#lastBcast) == 0
 //@   ensures err != nil ==> #bcasts == old(#bcasts) && (forall k string :: {s.sessions[k]} {k in s.sessions} (k in s.sessions <==> old(k in s.sessions)) && s.sessions[k] == old(s.sessions[k]))
 //@   ensures forall k string :: {s.sessions[k]} {k in s.sessions} k != id ==> (k in s.sessions <==> old(k in s.sessions)) && s.sessions[k] == old(s.sessions[k])
-//@   modifies mapof(s.sessions), newrows(bytes), #bcasts, #lastBcast, heap(K_sync_RWMutex)
+//@   modifies mapof(s.sessions), newrows(bytes), #bcasts, #lastBcast
 
 //@ func (*sessionMetadatasState).set(session api.SessionMetadatas) (err error)
 //@   requires sm_wf(s) && wlocked(s.mu)
@@ -158,7 +158,7 @@ package distributed
 //@   ensures #bcasts == old(#bcasts) ==> (forall k string :: {s.sessions[k]} {k in s.sessions} (k in s.sessions <==> old(k in s.sessions)) && s.sessions[k] == old(s.sessions[k]))
 //@   ensures err == nil && old(id in s.sessions) && old(!(s.sessions[id].LastDeleted > 0 && s.sessions[id].LastAdded < s.sessions[id].LastDeleted)) ==> #bcasts == old(#bcasts) + 1
 //@   ensures forall k string :: {s.sessions[k]} {k in s.sessions} k != id ==> (k in s.sessions <==> old(k in s.sessions)) && s.sessions[k] == old(s.sessions[k])
-//@   modifies mapof(s.sessions), newrows(bytes), #bcasts, #lastBcast, heap(K_sync_RWMutex)
+//@   modifies mapof(s.sessions), newrows(bytes), #bcasts, #lastBcast
 
 // reads: only records that are currently added are visible
 //@ func (*sessionMetadatasState).Get(id string) (v api.SessionMetadatas, err error)
@@ -208,13 +208,13 @@ package distributed
 //@   requires sm_wf(s) && unlocked(s.mu)
 //@   ensures forall i int :: {out[i]} 0 <= i && i < len(out) ==> out[i].SessionID in s.sessions && out[i] == s.sessions[out[i].SessionID] && sm_added(out[i]) && out[i].Peer == peer
 //@   ensures forall k string :: {s.sessions[k]} {k in s.sessions} k in s.sessions && sm_added(s.sessions[k]) && s.sessions[k].Peer == peer ==> (exists i int :: {out[i]} 0 <= i && i < len(out) && out[i] == s.sessions[k])
-//@   modifies newrows(api.SessionMetadatas), heap(K_sync_RWMutex)
+//@   modifies newrows(api.SessionMetadatas)
 //@ func (*sessionMetadatasState).All() (out []api.SessionMetadatas)
 //@   requires sm_wf(s) && unlocked(s.mu)
 //@   ensures fresh(out) && off(out) == 0
 //@   ensures forall i int :: {out[i]} 0 <= i && i < len(out) ==> out[i].SessionID in s.sessions && out[i] == s.sessions[out[i].SessionID] && sm_added(out[i])
 //@   ensures forall k string :: {s.sessions[k]} {k in s.sessions} k in s.sessions && sm_added(s.sessions[k]) ==> (exists i int :: {out[i]} 0 <= i && i < len(out) && out[i] == s.sessions[k])
-//@   modifies newrows(api.SessionMetadatas), heap(K_sync_RWMutex)
+//@   modifies newrows(api.SessionMetadatas)
 
 // C09: the bulk removal of a peer's sessions stamps every added record of that peer with a deletion time, and ONE broadcast
 // carries every one of those records; no other record changes; when the broadcast cannot be built nothing changes.
@@ -227,7 +227,7 @@ package distributed
 //@             && (exists i int :: {ev_sess(#lastBcast, i)} 0 <= i && i < ev_nsess(#lastBcast) && sm_eq(ev_sess(#lastBcast, i), s.sessions[k])))
 //@   ensures forall k string :: {s.sessions[k]} {k in s.sessions} !old(k in s.sessions && sm_added(s.sessions[k]) && s.sessions[k].Peer == peer) ==> (k in s.sessions <==> old(k in s.sessions)) && s.sessions[k] == old(s.sessions[k])
 //@   ensures err != nil ==> #bcasts == old(#bcasts) && (forall k string :: {s.sessions[k]} {k in s.sessions} (k in s.sessions <==> old(k in s.sessions)) && s.sessions[k] == old(s.sessions[k]))
-//@   modifies mapof(s.sessions), newrows(bytes), newrows(api.SessionMetadatas), newrows(*api.SessionMetadatas), #bcasts, #lastBcast, heap(K_sync_RWMutex)
+//@   modifies mapof(s.sessions), newrows(bytes), newrows(api.SessionMetadatas), newrows(*api.SessionMetadatas), #bcasts, #lastBcast
 // pass 1 stamps a private copy of every selected record and collects the copies in the event, in order
 //@ pred sm_stamped(e api.SessionMetadatas, o api.SessionMetadatas) := e.SessionID == o.SessionID && e.ClientID == o.ClientID && e.ConnectedAt == o.ConnectedAt && e.Peer == o.Peer && e.LWT == o.LWT && e.MountPoint == o.MountPoint && e.LastAdded == o.LastAdded && e.LastDeleted > 0
 //@ loop (*sessionMetadatasState).DeletePeer#1
@@ -248,10 +248,264 @@ package distributed
 //@   ensures forall k string :: {s.sessions[k]} {k in s.sessions} k in s.sessions ==> (exists i int :: {event.SessionMetadatas[i]} old(len(event.SessionMetadatas)) <= i && i < len(event.SessionMetadatas) && event.SessionMetadatas[i] != nil && *event.SessionMetadatas[i] == s.sessions[k])
 //@   ensures forall i int :: {event.SessionMetadatas[i]} old(len(event.SessionMetadatas)) <= i && i < len(event.SessionMetadatas) ==> event.SessionMetadatas[i] != nil && fresh(event.SessionMetadatas[i]) && event.SessionMetadatas[i].SessionID in s.sessions && *event.SessionMetadatas[i] == s.sessions[event.SessionMetadatas[i].SessionID]
 //@   ensures forall i int :: {event.SessionMetadatas[i]} 0 <= i && i < old(len(event.SessionMetadatas)) ==> event.SessionMetadatas[i] == old(event.SessionMetadatas[i])
-//@   modifies event.SessionMetadatas, allelems(event.SessionMetadatas), heap(K_sync_RWMutex)
+//@   modifies event.SessionMetadatas, allelems(event.SessionMetadatas)
 //@ loop (*sessionMetadatasState).dump#1
 //@   invariant sm_wf(s) && event != nil && len(event.SessionMetadatas) >= old(len(event.SessionMetadatas)) && off(event.SessionMetadatas) == 0
 //@   invariant oldobjs("api.SessionMetadatas") && oldobjs("api.StateBroadcastEvent", event)
 //@   invariant forall k string :: {seen(k)} seen(k) && k in s.sessions ==> (exists i int :: {event.SessionMetadatas[i]} old(len(event.SessionMetadatas)) <= i && i < len(event.SessionMetadatas) && event.SessionMetadatas[i] != nil && *event.SessionMetadatas[i] == s.sessions[k])
 //@   invariant forall i int :: {event.SessionMetadatas[i]} old(len(event.SessionMetadatas)) <= i && i < len(event.SessionMetadatas) ==> event.SessionMetadatas[i] != nil && fresh(event.SessionMetadatas[i]) && allocated(event.SessionMetadatas[i]) && event.SessionMetadatas[i].SessionID in s.sessions && *event.SessionMetadatas[i] == s.sessions[event.SessionMetadatas[i].SessionID]
 //@   invariant forall i int :: {event.SessionMetadatas[i]} 0 <= i && i < old(len(event.SessionMetadatas)) ==> event.SessionMetadatas[i] == old(event.SessionMetadatas[i])
+
+// ---- the subscription lists stored in the trie (C01, C08, C09) ---------------------------------------------------------------
+// A trie node holds an encoded api.SubscriptionList. What a decoder sees in such bytes (A-PROTOBUF): sl_ok = decodable,
+// sl_n = number of entries, sl_sid .. sl_pat = the fields of entry i (the pattern as a string of bytes).
+//@ fun sl_ok(enc string) bool
+//@ fun sl_n(enc string) int
+//@ fun sl_sid(enc string, i int) string
+//@ fun sl_peer(enc string, i int) uint64
+//@ fun sl_qos(enc string, i int) int32
+//@ fun sl_la(enc string, i int) int64
+//@ fun sl_ld(enc string, i int) int64
+//@ fun sl_pat(enc string, i int) string
+//@ axiom sl_n_nonneg: forall e string :: {sl_n(e)} sl_n(e) >= 0
+// entry i of the encoded list e is the record v
+//@ pred sl_is(e string, i int, v api.Subscription) := sl_sid(e, i) == v.SessionID && sl_peer(e, i) == v.Peer && sl_qos(e, i) == v.QoS && sl_la(e, i) == v.LastAdded && sl_ld(e, i) == v.LastDeleted && sl_pat(e, i) == string(v.Pattern)
+// entry i of e and entry j of g are the same record
+//@ pred sl_same(e string, i int, g string, j int) := sl_sid(e, i) == sl_sid(g, j) && sl_peer(e, i) == sl_peer(g, j) && sl_qos(e, i) == sl_qos(g, j) && sl_la(e, i) == sl_la(g, j) && sl_ld(e, i) == sl_ld(g, j) && sl_pat(e, i) == sl_pat(g, j)
+
+//@ trusted func github.com/golang/protobuf/proto.Unmarshal(buf []byte, pb proto.Message) (err error)
+//@   requires typeis(pb, *api.SubscriptionList) ==> unbox(pb, *api.SubscriptionList) != nil
+//@   ensures typeis(pb, *api.SubscriptionList) ==> (err == nil <==> sl_ok(string(buf)))
+//@   ensures err == nil && typeis(pb, *api.SubscriptionList) ==> len(unbox(pb, *api.SubscriptionList).Subscriptions) == sl_n(string(buf)) && off(unbox(pb, *api.SubscriptionList).Subscriptions) == 0
+//@         && (unbox(pb, *api.SubscriptionList).Subscriptions == nil || fresh(unbox(pb, *api.SubscriptionList).Subscriptions))
+//@         && (forall i int :: {unbox(pb, *api.SubscriptionList).Subscriptions[i]} 0 <= i && i < sl_n(string(buf)) ==> unbox(pb, *api.SubscriptionList).Subscriptions[i] != nil && fresh(unbox(pb, *api.SubscriptionList).Subscriptions[i])
+//@               && sl_is(string(buf), i, *unbox(pb, *api.SubscriptionList).Subscriptions[i]))
+//@   modifies newobjs(unbox(pb, *api.SubscriptionList)), newobjs(api.Subscription), newrows(*api.Subscription), newrows(bytes)
+//@ trusted func github.com/golang/protobuf/proto.Marshal(pb proto.Message) (out []byte, err error)
+//@   ensures err == nil && typeis(pb, *api.SubscriptionList) ==> out != nil && fresh(out) && sl_ok(string(out)) && sl_n(string(out)) == len(unbox(pb, *api.SubscriptionList).Subscriptions)
+//@         && (forall i int :: {sl_sid(string(out), i)} {unbox(pb, *api.SubscriptionList).Subscriptions[i]} 0 <= i && i < len(unbox(pb, *api.SubscriptionList).Subscriptions) ==> sl_is(string(out), i, *unbox(pb, *api.SubscriptionList).Subscriptions[i]))
+
+// C08: the merge of one subscription record u into the list stored for its pattern. With e the bytes stored before and r the
+// bytes stored afterwards: every entry of e is still there for its session, or superseded by a later record of that session
+// (S1: nothing goes back in time); the list holds a record of u's session at least as recent as u (S2); every entry of r is u
+// itself or the entry of e at the same position (S3: entries keep their place, u replaces one or is appended). Bytes that do not decode are replaced by the list holding u alone. (nil is returned only when
+// the new list cannot be encoded.)
+//@ func (*subscriptionsState).set$1(b []byte) (r []byte)
+//@   ensures r != nil && sl_ok(string(b)) ==> (forall i int :: {sl_sid(string(b), i)} 0 <= i && i < sl_n(string(b)) ==>
+//@               (exists j int :: {sl_sid(string(r), j)} 0 <= j && j < sl_n(string(r)) && sl_sid(string(r), j) == sl_sid(string(b), i) && lwwts(sl_la(string(r), j), sl_ld(string(r), j)) >= lwwts(sl_la(string(b), i), sl_ld(string(b), i))))
+//@   ensures r != nil ==> (exists j int :: {sl_sid(string(r), j)} 0 <= j && j < sl_n(string(r)) && sl_sid(string(r), j) == subscription.SessionID && lwwts(sl_la(string(r), j), sl_ld(string(r), j)) >= lwwts(subscription.LastAdded, subscription.LastDeleted))
+//@   ensures r != nil && sl_ok(string(b)) ==> (forall j int :: {sl_sid(string(r), j)} 0 <= j && j < sl_n(string(r)) ==> sl_is(string(r), j, subscription) || (j < sl_n(string(b)) && sl_same(string(r), j, string(b), j)))
+//@   ensures r != nil && !sl_ok(string(b)) ==> sl_n(string(r)) == 1 && sl_is(string(r), 0, subscription)
+//@   ensures r != nil ==> sl_ok(string(r)) && fresh(r)
+//@   modifies newobjs(api.SubscriptionList), newobjs(api.Subscription), newrows(*api.Subscription), newrows(bytes)
+//@ loop (*subscriptionsState).set$1#1
+//@   invariant local != nil && fresh(local) && -1 <= rangeindex && rangeindex < len(local.Subscriptions) && len(local.Subscriptions) == sl_n(string(b)) && off(local.Subscriptions) == 0
+//@   invariant forall i int :: {local.Subscriptions[i]} {sl_sid(string(b), i)} 0 <= i && i < sl_n(string(b)) ==> local.Subscriptions[i] != nil && fresh(local.Subscriptions[i]) && sl_is(string(b), i, *local.Subscriptions[i])
+//@   invariant !found ==> (forall i int :: {local.Subscriptions[i]} 0 <= i && i <= rangeindex ==> local.Subscriptions[i].SessionID != subscription.SessionID)
+//@   invariant found ==> (exists i int :: {local.Subscriptions[i]} 0 <= i && i <= rangeindex && local.Subscriptions[i].SessionID == subscription.SessionID && lwwts(local.Subscriptions[i].LastAdded, local.Subscriptions[i].LastDeleted) >= lwwts(subscription.LastAdded, subscription.LastDeleted))
+
+// The trie behind the interface (stubs for the callers in this package; the implementation is verified against its own, stronger
+// contracts in subscriptions/contracts_verif.go: Upsert applies f once to the data at the key of the pattern, Walk / Iterate call
+// the iterator with the data of the matching / non-empty nodes). Nothing but the trie, fresh memory and the counters changes.
+//@ func (subscriptions.Tree).Upsert(t subscriptions.Tree, pattern []byte, f func([]byte) []byte) (err error)
+//@   ensures err == nil && #treeUpserts == old(#treeUpserts) + 1 && #lastUpsertKey == string(pattern)
+//@   modifies #treeUpserts, #lastUpsertKey, newrows(bytes), newobjs(api.SubscriptionList), newobjs(api.Subscription), newrows(*api.Subscription)
+//@ func (subscriptions.Tree).Walk(t subscriptions.Tree, topic []byte, iterator subscriptions.NodeIterator)
+//@   ensures #treeWalks == old(#treeWalks) + 1 && #lastWalkKey == string(topic)
+//@   modifies *, except(heap(E_byte)), newrows(bytes), #treeWalks, #lastWalkKey
+//@ func (subscriptions.Tree).Iterate(t subscriptions.Tree, iterator subscriptions.NodeIterator)
+//@   ensures #treeIterates == old(#treeIterates) + 1
+//@   modifies *, except(heap(E_byte)), newrows(bytes), #treeIterates
+
+// set hands the record to the trie: one upsert at the record's pattern with the merge closure above; the record is logged
+//@ func (*subscriptionsState).set(subscription api.Subscription)
+//@   requires s != nil && s.subscriptions != nil
+//@   ensures #treeUpserts == old(#treeUpserts) + 1 && #lastUpsertKey == string(subscription.Pattern)
+//@   ensures #setN == old(#setN) + 1 && #setSid == update(old(#setSid), old(#setN), subscription.SessionID) && #setPat == update(old(#setPat), old(#setN), string(subscription.Pattern))
+//@         && #setPeer == update(old(#setPeer), old(#setN), subscription.Peer) && #setQoS == update(old(#setQoS), old(#setN), subscription.QoS)
+//@         && #setLA == update(old(#setLA), old(#setN), subscription.LastAdded) && #setLD == update(old(#setLD), old(#setN), subscription.LastDeleted)
+//@   modifies #treeUpserts, #lastUpsertKey, #setN, #setSid, #setPat, #setPeer, #setQoS, #setLA, #setLD, newrows(bytes), newobjs(api.SubscriptionList), newobjs(api.Subscription), newrows(*api.Subscription)
+//@ ghost-after (*subscriptionsState).set call (subscriptions.Tree).Upsert
+//@   set #setSid := update(#setSid, #setN, subscription.SessionID)
+//@   set #setPat := update(#setPat, #setN, string(subscription.Pattern))
+//@   set #setPeer := update(#setPeer, #setN, subscription.Peer)
+//@   set #setQoS := update(#setQoS, #setN, subscription.QoS)
+//@   set #setLA := update(#setLA, #setN, subscription.LastAdded)
+//@   set #setLD := update(#setLD, #setN, subscription.LastDeleted)
+//@   set #setN := #setN + 1
+
+// entry j of the set log is the record v
+//@ pred setlog_is(j int, v api.Subscription) := #setSid[j] == v.SessionID && #setPat[j] == string(v.Pattern) && #setPeer[j] == v.Peer && #setQoS[j] == v.QoS && #setLA[j] == v.LastAdded && #setLD[j] == v.LastDeleted
+// what a broadcast carries for subscription i
+//@ fun ev_sub_pat(enc string, i int) string
+//@ pred evsub_is(enc string, i int, v api.Subscription) := ev_sub(enc, i).SessionID == v.SessionID && ev_sub(enc, i).Peer == v.Peer && ev_sub(enc, i).QoS == v.QoS && ev_sub(enc, i).LastAdded == v.LastAdded && ev_sub(enc, i).LastDeleted == v.LastDeleted && ev_sub_pat(enc, i) == string(v.Pattern)
+//@ trusted func github.com/golang/protobuf/proto.Marshal(pb proto.Message) (out []byte, err error)
+//@   ensures err == nil && typeis(pb, *api.StateBroadcastEvent) ==> (forall i int :: {ev_sub(string(out), i)} {unbox(pb, *api.StateBroadcastEvent).Subscriptions[i]} 0 <= i && i < len(unbox(pb, *api.StateBroadcastEvent).Subscriptions) ==> evsub_is(string(out), i, *unbox(pb, *api.StateBroadcastEvent).Subscriptions[i]))
+
+// C08: a batch of remote subscription records is merged record by record, in order, through set (and so through the merge
+// closure); an invalid record stops the batch with an error.
+//@ func (*subscriptionsState).mergeSubscriptions(subscriptions []*api.Subscription) (err error)
+//@   requires s != nil && s.subscriptions != nil && unlocked(s.mu)
+//@   requires forall i int :: {subscriptions[i]} 0 <= i && i < len(subscriptions) ==> subscriptions[i] != nil
+//@   ensures err == nil ==> #setN == old(#setN) + len(subscriptions) && (forall i int :: {subscriptions[i]} 0 <= i && i < len(subscriptions) ==> setlog_is(old(#setN) + i, *subscriptions[i]))
+//@   ensures err != nil ==> err == ErrInvalidPayload && #setN - old(#setN) < len(subscriptions) && #setN >= old(#setN)
+//@            && (subscriptions[#setN - old(#setN)].SessionID == "" || len(subscriptions[#setN - old(#setN)].Pattern) == 0)
+//@            && (forall i int :: {subscriptions[i]} 0 <= i && i < #setN - old(#setN) ==> setlog_is(old(#setN) + i, *subscriptions[i]))
+//@   modifies #treeUpserts, #lastUpsertKey, #setN, #setSid, #setPat, #setPeer, #setQoS, #setLA, #setLD, newrows(bytes), newobjs(api.SubscriptionList), newobjs(api.Subscription), newrows(*api.Subscription)
+//@ loop (*subscriptionsState).mergeSubscriptions#1
+//@   invariant s != nil && s.subscriptions != nil && -1 <= rangeindex && rangeindex < len(subscriptions) && #setN == old(#setN) + rangeindex + 1
+//@   invariant oldobjs("api.Subscription") && oldrows("[]byte")
+//@   invariant forall i int :: {subscriptions[i]} 0 <= i && i <= rangeindex ==> setlog_is(old(#setN) + i, *subscriptions[i])
+
+// C09: a subscription made (or removed) locally is merged through set and carried by exactly one broadcast holding that very
+// record; when the broadcast cannot be built nothing is merged and nothing is sent.
+//@ func (*subscriptionsState).CreateFrom(sessionID string, peer uint64, pattern []byte, qos int32) (err error)
+//@   requires s != nil && s.subscriptions != nil && unlocked(s.mu) && s.bcast != nil && s.recorder != nil
+//@   requires exists i int :: {pattern[i]} 0 <= i && i < len(pattern) && pattern[i] == 47
+//@   ensures err == nil ==> #setN == old(#setN) + 1 && #setSid[old(#setN)] == sessionID && #setPat[old(#setN)] == string(pattern) && #setPeer[old(#setN)] == peer && #setQoS[old(#setN)] == qos && #setLA[old(#setN)] > 0 && #setLD[old(#setN)] == 0
+//@   ensures err == nil ==> #bcasts == old(#bcasts) + 1 && ev_nsubs(#lastBcast) == 1 && ev_nsess(#lastBcast) == 0 && ev_nret(#lastBcast) == 0
+//@            && ev_sub(#lastBcast, 0).SessionID == sessionID && ev_sub_pat(#lastBcast, 0) == string(pattern) && ev_sub(#lastBcast, 0).Peer == #setPeer[old(#setN)] && ev_sub(#lastBcast, 0).QoS == qos
+//@            && ev_sub(#lastBcast, 0).LastAdded == #setLA[old(#setN)] && ev_sub(#lastBcast, 0).LastDeleted == 0
+//@   ensures err != nil ==> #setN == old(#setN) && #bcasts == old(#bcasts) && #treeUpserts == old(#treeUpserts)
+//@   modifies #treeUpserts, #lastUpsertKey, #setN, #setSid, #setPat, #setPeer, #setQoS, #setLA, #setLD, #bcasts, #lastBcast, newrows(bytes), newobjs(api.SubscriptionList), newobjs(api.Subscription), newrows(*api.Subscription)
+//@ func (*subscriptionsState).Create(sessionID string, pattern []byte, qos int32) (err error)
+//@   requires s != nil && s.subscriptions != nil && unlocked(s.mu) && s.bcast != nil && s.recorder != nil
+//@   requires exists i int :: {pattern[i]} 0 <= i && i < len(pattern) && pattern[i] == 47
+//@   ensures err == nil ==> #setN == old(#setN) + 1 && #setSid[old(#setN)] == sessionID && #setPat[old(#setN)] == string(pattern) && #setPeer[old(#setN)] == s.peer && #setQoS[old(#setN)] == qos && #setLA[old(#setN)] > 0 && #setLD[old(#setN)] == 0
+//@   ensures err == nil ==> #bcasts == old(#bcasts) + 1 && ev_nsubs(#lastBcast) == 1
+//@   ensures err != nil ==> #setN == old(#setN) && #bcasts == old(#bcasts)
+//@   modifies #treeUpserts, #lastUpsertKey, #setN, #setSid, #setPat, #setPeer, #setQoS, #setLA, #setLD, #bcasts, #lastBcast, newrows(bytes), newobjs(api.SubscriptionList), newobjs(api.Subscription), newrows(*api.Subscription)
+//@ func (*subscriptionsState).Delete(sessionID string, pattern []byte) (err error)
+//@   requires s != nil && s.subscriptions != nil && unlocked(s.mu) && s.bcast != nil && s.recorder != nil
+//@   requires exists i int :: {pattern[i]} 0 <= i && i < len(pattern) && pattern[i] == 47
+//@   ensures err == nil ==> #setN == old(#setN) + 1 && #setSid[old(#setN)] == sessionID && #setPat[old(#setN)] == string(pattern) && #setLD[old(#setN)] > 0 && #setLA[old(#setN)] == 0
+//@   ensures err == nil ==> #bcasts == old(#bcasts) + 1 && ev_nsubs(#lastBcast) == 1 && ev_nsess(#lastBcast) == 0 && ev_nret(#lastBcast) == 0
+//@            && ev_sub(#lastBcast, 0).SessionID == sessionID && ev_sub_pat(#lastBcast, 0) == string(pattern) && ev_sub(#lastBcast, 0).LastDeleted == #setLD[old(#setN)] && ev_sub(#lastBcast, 0).LastAdded == 0
+//@   ensures err != nil ==> #setN == old(#setN) && #bcasts == old(#bcasts) && #treeUpserts == old(#treeUpserts)
+//@   modifies #treeUpserts, #lastUpsertKey, #setN, #setSid, #setPat, #setPeer, #setQoS, #setLA, #setLD, #bcasts, #lastBcast, newrows(bytes), newobjs(api.SubscriptionList), newobjs(api.Subscription), newrows(*api.Subscription)
+
+// the selection predicates handed to filter / filterPattern are pure functions of the record
+//@ assume-call (*subscriptionsState).filter.f(x api.Subscription) (r bool)
+//@   pure
+//@ assume-call (*subscriptionsState).filterPattern.f(x api.Subscription) (r bool)
+//@   pure
+//@ pred sub_added(v api.Subscription) := v.LastAdded > 0 && v.LastAdded > v.LastDeleted
+
+// filter / filterPattern run the trie's Iterate / Walk once with a collecting closure (below) and return what it collected.
+// (How the calls of the closure compose into the result is not mechanised: the trie contracts say which node data the iterator
+// is called with, the closure contracts say what one call appends.)
+//@ func (*subscriptionsState).filter(f func(api.Subscription) bool) (out []api.Subscription)
+//@   requires s != nil && s.subscriptions != nil
+//@   ensures #treeIterates == old(#treeIterates) + 1 && #treeWalks == old(#treeWalks)
+//@   modifies *, except(heap(E_byte)), newrows(bytes), #treeIterates
+//@ func (*subscriptionsState).filterPattern(pattern []byte, f func(api.Subscription) bool) (out []api.Subscription)
+//@   requires s != nil && s.subscriptions != nil
+//@   ensures #treeWalks == old(#treeWalks) + 1 && #lastWalkKey == string(pattern) && #treeIterates == old(#treeIterates)
+//@   modifies *, except(heap(E_byte)), newrows(bytes), #treeWalks, #lastWalkKey
+
+// C09: the bulk removals (a peer's or a session's subscriptions) stamp a private copy of every selected record with ONE deletion
+// time, encode all copies into ONE broadcast, then merge every copy through set: the records merged locally are exactly the
+// records of the broadcast, in order. When the broadcast cannot be built nothing is merged and nothing is sent.
+//@ pred bulk_ok(n0 int, n int, b0 int) := #bcasts == b0 + 1 && #setN == n0 + n && ev_nsubs(#lastBcast) == n && ev_nsess(#lastBcast) == 0 && ev_nret(#lastBcast) == 0
+//@         && (forall j int :: {#setSid[n0 + j]} {ev_sub(#lastBcast, j)} 0 <= j && j < n ==> ev_sub(#lastBcast, j).SessionID == #setSid[n0 + j] && ev_sub_pat(#lastBcast, j) == #setPat[n0 + j] && ev_sub(#lastBcast, j).Peer == #setPeer[n0 + j]
+//@               && ev_sub(#lastBcast, j).QoS == #setQoS[n0 + j] && ev_sub(#lastBcast, j).LastAdded == #setLA[n0 + j] && ev_sub(#lastBcast, j).LastDeleted == #setLD[n0 + j] && #setLD[n0 + j] > 0)
+//@ func (*subscriptionsState).DeletePeer(peer uint64)
+//@   requires s != nil && s.subscriptions != nil && unlocked(s.mu) && s.bcast != nil
+//@   ensures (#bcasts == old(#bcasts) && #setN == old(#setN)) || bulk_ok(old(#setN), #setN - old(#setN), old(#bcasts))
+//@   ensures #treeIterates == old(#treeIterates) + 1
+//@   modifies *, except(heap(E_byte)), newrows(bytes), #treeIterates, #treeUpserts, #lastUpsertKey, #setN, #setSid, #setPat, #setPeer, #setQoS, #setLA, #setLD, #bcasts, #lastBcast
+//@ func (*subscriptionsState).DeleteSession(id string)
+//@   requires s != nil && s.subscriptions != nil && unlocked(s.mu) && s.bcast != nil
+//@   ensures (#bcasts == old(#bcasts) && #setN == old(#setN)) || bulk_ok(old(#setN), #setN - old(#setN), old(#bcasts))
+//@   ensures #treeIterates == old(#treeIterates) + 1
+//@   modifies *, except(heap(E_byte)), newrows(bytes), #treeIterates, #treeUpserts, #lastUpsertKey, #setN, #setSid, #setPat, #setPeer, #setQoS, #setLA, #setLD, #bcasts, #lastBcast
+//@ loop (*subscriptionsState).DeletePeer#1
+//@   invariant s != nil && s.subscriptions != nil && s.bcast != nil && event != nil && fresh(event) && -1 <= rangeindex && rangeindex < len(toDelete) && len(event.Subscriptions) == rangeindex + 1 && off(event.Subscriptions) == 0 && now > 0
+//@   invariant #setN == old(#setN) && #bcasts == old(#bcasts) && #treeIterates == old(#treeIterates) + 1
+//@   invariant forall j int :: {event.Subscriptions[j]} 0 <= j && j <= rangeindex ==> event.Subscriptions[j] != nil && allocated(event.Subscriptions[j]) && event.Subscriptions[j].LastDeleted == now
+//@ loop (*subscriptionsState).DeletePeer#2
+//@   invariant s != nil && s.subscriptions != nil && s.bcast != nil && event != nil && -1 <= rangeindex && rangeindex < len(event.Subscriptions) && #setN == old(#setN) + rangeindex + 1 && #bcasts == old(#bcasts) && #treeIterates == old(#treeIterates) + 1 && now > 0
+//@   invariant forall j int :: {event.Subscriptions[j]} 0 <= j && j < len(event.Subscriptions) ==> event.Subscriptions[j] != nil && allocated(event.Subscriptions[j]) && event.Subscriptions[j].LastDeleted == now
+//@   invariant forall j int :: {event.Subscriptions[j]} {#setSid[old(#setN) + j]} 0 <= j && j <= rangeindex ==> setlog_is(old(#setN) + j, *event.Subscriptions[j])
+//@ loop (*subscriptionsState).DeleteSession#1
+//@   invariant s != nil && s.subscriptions != nil && s.bcast != nil && event != nil && fresh(event) && -1 <= rangeindex && rangeindex < len(toDelete) && len(event.Subscriptions) == rangeindex + 1 && off(event.Subscriptions) == 0 && now > 0
+//@   invariant #setN == old(#setN) && #bcasts == old(#bcasts) && #treeIterates == old(#treeIterates) + 1
+//@   invariant forall j int :: {event.Subscriptions[j]} 0 <= j && j <= rangeindex ==> event.Subscriptions[j] != nil && allocated(event.Subscriptions[j]) && event.Subscriptions[j].LastDeleted == now
+//@ loop (*subscriptionsState).DeleteSession#2
+//@   invariant s != nil && s.subscriptions != nil && s.bcast != nil && event != nil && -1 <= rangeindex && rangeindex < len(event.Subscriptions) && #setN == old(#setN) + rangeindex + 1 && #bcasts == old(#bcasts) && #treeIterates == old(#treeIterates) + 1 && now > 0
+//@   invariant forall j int :: {event.Subscriptions[j]} 0 <= j && j < len(event.Subscriptions) ==> event.Subscriptions[j] != nil && allocated(event.Subscriptions[j]) && event.Subscriptions[j].LastDeleted == now
+//@   invariant forall j int :: {event.Subscriptions[j]} {#setSid[old(#setN) + j]} 0 <= j && j <= rangeindex ==> setlog_is(old(#setN) + j, *event.Subscriptions[j])
+
+// the collecting closures of filter / filterPattern: one call appends to the result, in list order, exactly the entries of the
+// decoded list that are added and selected by f, and leaves the earlier part of the result as it was; bytes that do not decode
+// add nothing.
+//@ assume-call (*subscriptionsState).filter$1.f(x api.Subscription) (r bool)
+//@   pure
+//@ assume-call (*subscriptionsState).filterPattern$1.f(x api.Subscription) (r bool)
+//@   pure
+//@ func (*subscriptionsState).filter$1(b []byte)
+//@   requires off(out) == 0
+//@   ensures off(out) == 0 && len(out) >= old(len(out))
+//@   ensures forall i int :: {out[i]} 0 <= i && i < old(len(out)) ==> out[i] == old(out[i])
+//@   ensures !sl_ok(string(b)) ==> len(out) == old(len(out))
+//@   ensures sl_ok(string(b)) ==> (forall i int :: {out[i]} old(len(out)) <= i && i < len(out) ==> sub_added(out[i]) && f(out[i]) && (exists j int :: {sl_sid(string(b), j)} 0 <= j && j < sl_n(string(b)) && sl_is(string(b), j, out[i])))
+//@   ensures sl_ok(string(b)) ==> (forall j int :: {sl_sid(string(b), j)} 0 <= j && j < sl_n(string(b)) && sl_la(string(b), j) > 0 && sl_la(string(b), j) > sl_ld(string(b), j) ==>
+//@               (exists i int :: {out[i]} old(len(out)) <= i && i < len(out) && sl_is(string(b), j, out[i])) || (exists v api.Subscription :: {f(v)} sl_is(string(b), j, v) && !f(v)))
+//@   modifies out, allelems(out), newobjs(api.SubscriptionList), newobjs(api.Subscription), newrows(*api.Subscription), newrows(api.Subscription), newrows(bytes)
+//@ loop (*subscriptionsState).filter$1#1
+//@   invariant local != nil && fresh(local) && -1 <= rangeindex && rangeindex < len(local.Subscriptions) && len(local.Subscriptions) == sl_n(string(b)) && off(local.Subscriptions) == 0 && sl_ok(string(b))
+//@   invariant cellsframe(out) && oldrows("[]api.Subscription", old(out)) && oldobjs("api.Subscription") && oldobjs("api.SubscriptionList")
+//@   invariant forall i int :: {local.Subscriptions[i]} {sl_sid(string(b), i)} 0 <= i && i < sl_n(string(b)) ==> local.Subscriptions[i] != nil && fresh(local.Subscriptions[i]) && allocated(local.Subscriptions[i]) && sl_is(string(b), i, *local.Subscriptions[i])
+//@   invariant off(out) == 0 && len(out) >= old(len(out)) && (base(out) == old(base(out)) || fresh(out))
+//@   invariant forall i int :: {out[i]} 0 <= i && i < old(len(out)) ==> out[i] == old(out[i])
+//@   invariant forall i int :: {out[i]} old(len(out)) <= i && i < len(out) ==> sub_added(out[i]) && f(out[i]) && (exists j int :: {sl_sid(string(b), j)} 0 <= j && j < sl_n(string(b)) && sl_is(string(b), j, out[i]))
+//@   invariant forall j int :: {sl_sid(string(b), j)} 0 <= j && j <= rangeindex && sl_la(string(b), j) > 0 && sl_la(string(b), j) > sl_ld(string(b), j) ==>
+//@               (exists i int :: {out[i]} old(len(out)) <= i && i < len(out) && sl_is(string(b), j, out[i])) || (exists v api.Subscription :: {f(v)} sl_is(string(b), j, v) && !f(v))
+
+//@ func (*subscriptionsState).filterPattern$1(b []byte)
+//@   requires off(out) == 0
+//@   ensures off(out) == 0 && len(out) >= old(len(out))
+//@   ensures forall i int :: {out[i]} 0 <= i && i < old(len(out)) ==> out[i] == old(out[i])
+//@   ensures !sl_ok(string(b)) ==> len(out) == old(len(out))
+//@   ensures sl_ok(string(b)) ==> (forall i int :: {out[i]} old(len(out)) <= i && i < len(out) ==> sub_added(out[i]) && f(out[i]) && (exists j int :: {sl_sid(string(b), j)} 0 <= j && j < sl_n(string(b)) && sl_is(string(b), j, out[i])))
+//@   ensures sl_ok(string(b)) ==> (forall j int :: {sl_sid(string(b), j)} 0 <= j && j < sl_n(string(b)) && sl_la(string(b), j) > 0 && sl_la(string(b), j) > sl_ld(string(b), j) ==>
+//@               (exists i int :: {out[i]} old(len(out)) <= i && i < len(out) && sl_is(string(b), j, out[i])) || (exists v api.Subscription :: {f(v)} sl_is(string(b), j, v) && !f(v)))
+//@   modifies out, allelems(out), newobjs(api.SubscriptionList), newobjs(api.Subscription), newrows(*api.Subscription), newrows(api.Subscription), newrows(bytes)
+//@ loop (*subscriptionsState).filterPattern$1#1
+//@   invariant local != nil && fresh(local) && -1 <= rangeindex && rangeindex < len(local.Subscriptions) && len(local.Subscriptions) == sl_n(string(b)) && off(local.Subscriptions) == 0 && sl_ok(string(b))
+//@   invariant cellsframe(out) && oldrows("[]api.Subscription", old(out)) && oldobjs("api.Subscription") && oldobjs("api.SubscriptionList")
+//@   invariant forall i int :: {local.Subscriptions[i]} {sl_sid(string(b), i)} 0 <= i && i < sl_n(string(b)) ==> local.Subscriptions[i] != nil && fresh(local.Subscriptions[i]) && allocated(local.Subscriptions[i]) && sl_is(string(b), i, *local.Subscriptions[i])
+//@   invariant off(out) == 0 && len(out) >= old(len(out)) && (base(out) == old(base(out)) || fresh(out))
+//@   invariant forall i int :: {out[i]} 0 <= i && i < old(len(out)) ==> out[i] == old(out[i])
+//@   invariant forall i int :: {out[i]} old(len(out)) <= i && i < len(out) ==> sub_added(out[i]) && f(out[i]) && (exists j int :: {sl_sid(string(b), j)} 0 <= j && j < sl_n(string(b)) && sl_is(string(b), j, out[i]))
+//@   invariant forall j int :: {sl_sid(string(b), j)} 0 <= j && j <= rangeindex && sl_la(string(b), j) > 0 && sl_la(string(b), j) > sl_ld(string(b), j) ==>
+//@               (exists i int :: {out[i]} old(len(out)) <= i && i < len(out) && sl_is(string(b), j, out[i])) || (exists v api.Subscription :: {f(v)} sl_is(string(b), j, v) && !f(v))
+
+// the read side: thin wrappers
+//@ func (*subscriptionsState).ByPattern(pattern []byte) (out []api.Subscription)
+//@   requires s != nil && s.subscriptions != nil && unlocked(s.mu)
+//@   ensures #treeWalks == old(#treeWalks) + 1 && #lastWalkKey == string(pattern)
+//@   modifies *, except(heap(E_byte)), newrows(bytes), #treeWalks, #lastWalkKey
+//@ func (*subscriptionsState).ByPeer(peer uint64) (out []api.Subscription)
+//@   requires s != nil && s.subscriptions != nil && unlocked(s.mu)
+//@   ensures #treeIterates == old(#treeIterates) + 1
+//@   modifies *, except(heap(E_byte)), newrows(bytes), #treeIterates
+//@ func (*subscriptionsState).All() (out []api.Subscription)
+//@   requires s != nil && s.subscriptions != nil && unlocked(s.mu)
+//@   ensures #treeIterates == old(#treeIterates) + 1
+//@   modifies *, except(heap(E_byte)), newrows(bytes), #treeIterates
+
+// C10: the snapshot of the subscription index: one iteration over the trie with a closure that appends EVERY entry of every
+// decoded list (removed ones included) to the event
+//@ func (*subscriptionsState).dump(event *api.StateBroadcastEvent)
+//@   requires s != nil && s.subscriptions != nil && unlocked(s.mu) && event != nil
+//@   ensures #treeIterates == old(#treeIterates) + 1
+//@   modifies *, except(heap(E_byte)), newrows(bytes), #treeIterates
+//@ func (*subscriptionsState).dump$1(b []byte)
+//@   requires event != nil && off(event.Subscriptions) == 0
+//@   ensures off(event.Subscriptions) == 0
+//@   ensures !sl_ok(string(b)) ==> len(event.Subscriptions) == old(len(event.Subscriptions))
+//@   ensures sl_ok(string(b)) ==> len(event.Subscriptions) == old(len(event.Subscriptions)) + sl_n(string(b))
+//@   ensures forall i int :: {event.Subscriptions[i]} 0 <= i && i < old(len(event.Subscriptions)) ==> event.Subscriptions[i] == old(event.Subscriptions[i])
+//@   ensures sl_ok(string(b)) ==> (forall j int :: {sl_sid(string(b), j)} {event.Subscriptions[old(len(event.Subscriptions)) + j]} 0 <= j && j < sl_n(string(b)) ==> event.Subscriptions[old(len(event.Subscriptions)) + j] != nil && sl_is(string(b), j, *event.Subscriptions[old(len(event.Subscriptions)) + j]))
+//@   modifies event.Subscriptions, allelems(event.Subscriptions), newobjs(api.SubscriptionList), newobjs(api.Subscription), newrows(*api.Subscription), newrows(bytes)
